@@ -725,6 +725,27 @@ func c15TransportType(c *core.Ctx, t reflect.Type) {
 					if err := op.D.Transpose(); err == nil {
 						checkMask("Transpose/"+lay, op.D, want, desc)
 					}
+					// the copying transpositions, with tensors in the pool that carried a mask in their previous life
+					for k := 0; k < 2; k++ {
+						if old := build(gen.LC); old != nil {
+							tensor.ReturnTensor(old.D)
+						}
+					}
+					if src := build(lay); src != nil {
+						if r, err := src.D.SafeT(p...); err == nil {
+							checkMask("SafeT/"+lay, r, want, desc)
+						}
+						if r, err := tensor.T(src.D, p...); err == nil {
+							if rd, ok := r.(*tensor.Dense); ok {
+								checkMask("tensor.T/"+lay, rd, want, desc)
+							}
+						}
+						if r, err := tensor.Transpose(src.D, p...); err == nil {
+							if rd, ok := r.(*tensor.Dense); ok {
+								checkMask("tensor.Transpose/"+lay, rd, want, desc)
+							}
+						}
+					}
 				}
 				// slicing
 				op := build(lay)
@@ -768,6 +789,49 @@ func c15TransportType(c *core.Ctx, t reflect.Type) {
 					}
 					sdesc := map[string]interface{}{"layout": lay, "shape": shape, "slices": specsStr(specs), "mask": mask, "dtype": model.Name(t)}
 					checkMask("Slice/"+lay, vd, want, sdesc)
+					// ... and through a physical transposition of the view, which moves the parent's elements inside the view's window:
+					// in the view the mask follows the permutation, and in the parent every value keeps its mask state
+					if vd.IsMasked() && len(got) >= 2 && c.Rng.Intn(2) == 0 {
+						if w, err := op.D.Slice(sl...); err == nil {
+							wd := w.(*tensor.Dense)
+							pairs := func() map[string]bool {
+								out := map[string]bool{}
+								model.Each(shape, func(co []int, _ int) {
+									v, e1 := op.D.At(co...)
+									m, e2 := op.D.MaskAt(co...)
+									if e1 == nil && e2 == nil {
+										out[fmt.Sprint(v)] = m
+									}
+								})
+								return out
+							}
+							before := pairs()
+							perm := model.Reversal(len(got))
+							var terr error
+							if p, _ := core.Catch(func() {
+								if terr = wd.T(perm...); terr == nil {
+									terr = wd.Transpose()
+								}
+							}); !p && terr == nil {
+								checkMask("Slice+Transpose/"+lay, wd, model.Permute(want, perm), sdesc)
+								after := pairs()
+								for v, m := range before {
+									if am, ok := after[v]; ok && am != m {
+										c.Violation(core.Sig("transport", "Slice+Transpose/"+lay, shapeClass(shape), "parent-mask-left-behind"), fmt.Sprintf("transport/Slice+Transpose/%s/%s", lay, shapeStr(shape)), sdesc,
+											"every value of the parent keeps its mask state", fmt.Sprintf("value %s: masked %v -> %v", v, m, am))
+										break
+									}
+								}
+							}
+							// the parent's elements were moved: rebuild it for the next round
+							if nop := build(lay); nop != nil {
+								op = nop
+							} else {
+								break
+							}
+							continue
+						}
+					}
 					// ... and through a copy of the slice: the copy has its own, compact storage, the mask has to be compacted with it
 					if vd.IsMasked() && len(got) > 0 {
 						if md, ok := vd.Materialize().(*tensor.Dense); ok && md != vd {
